@@ -293,6 +293,8 @@ pub struct Replay {
     pub detail: String,
     pub original_steps: usize,
     pub trace: Trace,
+    /// event log of the (minimised) trace, for the reader; ignored when parsing
+    pub log: Vec<String>,
 }
 
 pub fn one_line(s: &str) -> String {
@@ -309,6 +311,12 @@ impl Replay {
         let _ = writeln!(out, "original_steps {}", self.original_steps);
         let _ = writeln!(out, "detail {}", one_line(&self.detail));
         out.push_str(&self.trace.to_text());
+        if !self.log.is_empty() {
+            let _ = writeln!(out, "# event log of this trace when it was recorded (ids, terms as printed by the crate):");
+            for l in &self.log {
+                let _ = writeln!(out, "#   {}", one_line(l));
+            }
+        }
         out
     }
 
@@ -340,6 +348,7 @@ impl Replay {
             detail,
             original_steps,
             trace,
+            log: Vec::new(),
         })
     }
 }
